@@ -20,7 +20,8 @@ def run(ctx):
         bad = ref.check(u)
         if bad:
             ctx.violation('inconsistent-tree', {'attached': u.doc is not None, 'history': hist}, bad[:4], 'links agree with child lists', {'kind': bad[0][0]})
-        if exp is not None and out != exp and not (isinstance(out, list) and out[1] in ('HierarchyRequestErr',)):
+        # (inserting under a text node is a hierarchy error before it is a not-found error; removing from one is the not-found error)
+        if exp is not None and out != exp and not (isinstance(out, list) and out[1] in ('HierarchyRequestErr',) and op[0] != 'remove'):
             ctx.violation('missing-not-found-error', {'attached': u.doc is not None, 'history': hist}, out, exp, {})
         if isinstance(out, list) and out[1].startswith('Other:'):
             ctx.violation('unexpected-exception', {'attached': u.doc is not None, 'history': hist}, out, 'a DOM error or success', {'exception': out[1]})
